@@ -14,6 +14,7 @@ NOTES = ['in 30% of the cases routes returned by earlier queries are translated 
 
 
 def pos(i):
+    i = i % 20                      # nodes i and i + 20 are distinct nodes standing at the same place (a loop road leaving and re-entering a junction)
     return [float(i), float(i * i % 7)]
 
 
@@ -21,11 +22,15 @@ def mid(eid):
     return [1000.0 + eid, float(eid)]
 
 
+def mid2(eid):
+    return [2000.0 + eid, float(2 * eid + 1)]       # a second interior vertex: no edge polyline reads the same in both directions
+
+
 def build_net(edges):
     from tracklib.core import ENUCoords, Obs, Track, Network, Node, Edge
     net = Network()
     for (eid, s, t, o, w) in edges:
-        pts = [pos(s), mid(eid), pos(t)]
+        pts = [pos(s), mid(eid), mid2(eid), pos(t)]
         e = Edge(eid, Track([Obs(ENUCoords(x, y, 0)) for x, y in pts]))
         e.orientation = o
         e.weight = w
@@ -44,11 +49,24 @@ def generate(rng, n, tier):
                         cases.append({'edges': g, 'src': s, 'tgt': t, 'shared': rng.random() < 0.3, 'edit': rng.random() < 0.2, 'warm': rng.choice(nodes)})
     for k in range(n):
         g = gen_graph(rng, small=(k % 3 == 0))
+        tw = None
+        if rng.random() < 0.25:      # twin nodes: some edge ends are re-attached to a second node at the same position, and edges join a node to its twin
+            tw = rng.choice(sorted({e[1] for e in g} | {e[2] for e in g}))
+            for e in g:
+                if e[1] == tw and rng.random() < 0.5:
+                    e[1] = tw + 20
+                if e[2] == tw and rng.random() < 0.5:
+                    e[2] = tw + 20
+            g.append([len(g), tw, tw + 20, rng.choice([0, 1, -1]), rng.choice([0, 1, 2])])
+            if rng.random() < 0.5:
+                g.append([len(g), tw + 20, tw, rng.choice([0, 1, -1]), rng.choice([1, 3])])
         nodes = sorted({e[1] for e in g} | {e[2] for e in g})
         if len(nodes) < 2:
             continue
         s = rng.choice(nodes)
         t = rng.choice([v for v in nodes if v != s])
+        if tw is not None and rng.random() < 0.6:     # a route that has to go from a node to its twin, or through both
+            s, t = rng.choice([(tw, tw + 20), (tw + 20, tw), (s, tw + 20) if s != tw + 20 else (tw, tw + 20)])
         cases.append({'edges': g, 'src': s, 'tgt': t, 'shared': rng.random() < 0.3, 'edit': rng.random() < 0.3, 'warm': rng.choice(nodes), 'pre': rand_pre(rng)})
     return cases
 
@@ -79,7 +97,7 @@ def recover_edges(case, obs):
     """edge ids in travel order from the middle vertices found in the returned geometry"""
     ids = []
     for x, y in obs['geom']:
-        if x >= 1000:
+        if 1000 <= x < 2000:
             ids.append(int(round(x - 1000)))
     return ids
 
@@ -119,7 +137,11 @@ def oracle(case, obs):
         if not ok:
             return 'step %d -> %d of the path uses edge %d = (%d -> %d, orientation %d), not traversable in that direction' % (a, b, k, s, t, o)
         total += w
-        exp_geom += [mid(k), pos(b)]
+        fwd = o >= 0 and s == a and t == b; bwd = o <= 0 and t == a and s == b
+        inner = [mid(k), mid2(k)] if fwd else [mid2(k), mid(k)]
+        if fwd and bwd and obs['geom'][len(exp_geom):len(exp_geom) + 2] == [mid2(k), mid(k)]:
+            inner = [mid2(k), mid(k)]                # a two-way self-loop may be drawn either way round
+        exp_geom += inner + [pos(b)]
     if total != dist or obs['dist'] != dist:
         return 'the edges of the path %r weigh %r, shortest_distance reports %r, true minimum %r' % (path, total, obs['dist'], dist)
     if obs['geom'] != exp_geom:
@@ -139,8 +161,8 @@ def shrink(case):
 
 
 CHECK = G_COMMON + '''Definition pt := (Q * Q)%type.
-Definition posf (i : nat) : pt := (inject_Z (Z.of_nat i), inject_Z (Z.of_nat ((i * i) mod 7))).
-Definition geomf (e : edge) : list pt := [posf (esrc e); (inject_Z (1000 + Z.of_nat (eid e)), inject_Z (Z.of_nat (eid e))); posf (etgt e)].
+Definition posf (i0 : nat) : pt := let i := (i0 mod 20)%nat in (inject_Z (Z.of_nat i), inject_Z (Z.of_nat ((i * i) mod 7))).
+Definition geomf (e : edge) : list pt := [posf (esrc e); (inject_Z (1000 + Z.of_nat (eid e)), inject_Z (Z.of_nat (eid e))); (inject_Z (2000 + Z.of_nat (eid e)), inject_Z (Z.of_nat (2 * eid e + 1))); posf (etgt e)].
 Definition pteq (a b : pt) : bool := Qeq_bool (fst a) (fst b) && Qeq_bool (snd a) (snd b).
 Fixpoint lpteq (a b : list pt) : bool := match a, b with [], [] => true | x :: r, y :: s => pteq x y && lpteq r s | _, _ => false end.
 Fixpoint edges_of (g : graph) (ids : list nat) : option (list edge) :=
